@@ -37,7 +37,7 @@ type c01Case struct {
 	Faults    []c01Fault
 }
 
-var c01Kinds = []string{"herr", "hpanic", "pbefore", "pafter", "ppanic"}
+var c01Kinds = []string{"herr", "hpanic", "pbefore", "pafter", "ppanic", "pcancel"} // pcancel: the publisher refuses with an error that wraps context.Canceled
 
 func runC01(c *Ctx) error {
 	T := c.Trace("PipelineTrace")
@@ -126,6 +126,8 @@ func runC01(c *Ctx) error {
 type c01Pub struct {
 	inner message.Publisher
 	fn    func(topic string, msgs []*message.Message) (string, bool) // returns fault kind and whether to delegate first
+	// deadEnd: every stage also announces what it forwards on a topic that nobody listens to (an audit topic without consumers)
+	deadEnd bool
 }
 
 func (p c01Pub) Publish(topic string, msgs ...*message.Message) error {
@@ -133,6 +135,8 @@ func (p c01Pub) Publish(topic string, msgs ...*message.Message) error {
 	switch kind {
 	case "pbefore":
 		return errScripted
+	case "pcancel":
+		return fmt.Errorf("scripted publisher: %w", context.Canceled)
 	case "ppanic":
 		panic("scripted publisher panic")
 	case "pafter":
@@ -140,6 +144,13 @@ func (p c01Pub) Publish(topic string, msgs ...*message.Message) error {
 			return err
 		}
 		return errScripted
+	}
+	if p.deadEnd {
+		for _, m := range msgs {
+			if err := p.inner.Publish("audit-nobody-listens", m.Copy()); err != nil {
+				return err
+			}
+		}
 	}
 	return p.inner.Publish(topic, msgs...)
 }
@@ -179,7 +190,7 @@ func c01Run(r *tr.Run, cs c01Case) (injected int) {
 			rt = newRouter()
 		}
 		tout := topic(st + 1)
-		pub := c01Pub{inner: gc, fn: func(tp string, msgs []*message.Message) (string, bool) {
+		pub := c01Pub{inner: gc, deadEnd: cs.Blocking, fn: func(tp string, msgs []*message.Message) (string, bool) {
 			mu.Lock()
 			pcalls[st]++
 			n := pcalls[st]
@@ -194,7 +205,7 @@ func c01Run(r *tr.Run, cs c01Case) (injected int) {
 			base := msgs[0].Metadata.Get("from")
 			cm := consumed[fmt.Sprintf("%d/%s", st, base)]
 			mu.Unlock()
-			fk := map[string]string{"": "none", "pbefore": "before", "pafter": "after", "ppanic": "panic"}[kind]
+			fk := map[string]string{"": "none", "pbefore": "before", "pcancel": "before", "pafter": "after", "ppanic": "panic"}[kind]
 			sample := "unknown"
 			if cm != nil {
 				sample = scripted.SettleState(cm)
